@@ -299,21 +299,43 @@ class Inliner:
         if expr is None:
             return None
         from .pyfront import eval_order
+        # sub-expressions that are evaluated conditionally, lazily or repeatedly:
+        # a call there cannot be bound to a temporary in front of the statement
+        lazy = set()
+
+        def mark(e):
+            for y in ast.walk(e):
+                lazy.add(id(y))
+        for x in ast.walk(expr):
+            if isinstance(x, ast.Lambda):
+                mark(x.body)
+            elif isinstance(x, (ast.ListComp, ast.SetComp, ast.DictComp, ast.GeneratorExp)):
+                for k, g in enumerate(x.generators):
+                    mark(g.target)
+                    if k:
+                        mark(g.iter)
+                    for c in g.ifs:
+                        mark(c)
+                if isinstance(x, ast.DictComp):
+                    mark(x.key)
+                    mark(x.value)
+                else:
+                    mark(x.elt)
+            elif isinstance(x, ast.IfExp):
+                mark(x.body)
+                mark(x.orelse)
+            elif isinstance(x, ast.BoolOp):
+                for v in x.values[1:]:
+                    mark(v)
         target = None
         for x in eval_order(expr):
-            if isinstance(x, (ast.Lambda, ast.ListComp, ast.SetComp, ast.DictComp,
-                              ast.GeneratorExp, ast.IfExp, ast.BoolOp)):
-                # conditional evaluation: the call may not run at all
-                if any(isinstance(y, ast.Call) and self.helper_for(y, nested)[0] is not None
-                       for y in ast.walk(x)):
-                    return None
             if isinstance(x, ast.Call):
                 helper, _ = self.helper_for(x, nested)
-                if helper is None:
-                    return None        # another call runs first
+                if helper is None or id(x) in lazy:
+                    return None        # another call runs first / not evaluated once
                 target = x
                 break
-        if target is None or target is expr:
+        if target is None or (target is expr and not isinstance(st, (ast.For, ast.If))):
             return None
         self.counter += 1
         tmp = '_inl%d_val' % self.counter
